@@ -622,6 +622,17 @@ func (c *IPAMController) onBlockUpdated(kvp model.KVPair) {
 			// If the sequence number has changed for an existing allocation, it means
 			// it has been reallocated. Update the allocation in place and mark it as valid.
 			if existing.sequenceNumber != alloc.sequenceNumber {
+				if existing.node() != alloc.node() {
+					// The allocation state is indexed by node, so move the allocation to its new node.
+					// Otherwise the entry under the old node outlives the allocation.
+					if existing.node() != "" {
+						c.allocationState.release(existing)
+					}
+					existing.attrs = alloc.attrs
+					if existing.node() != "" {
+						c.allocationState.allocate(existing)
+					}
+				}
 				existing.sequenceNumber = alloc.sequenceNumber
 				existing.attrs = alloc.attrs
 				existing.markValid()
